@@ -27,8 +27,8 @@ CFG = {
                   "C05_unlock_wrong/_right_histories_partial (hypotheses 'f12 or no EMPTY passphrase', DouOK) are kept "
                   "and superseded. 'Current passphrase' is the one held by the running manager (C05_currentPass_*); "
                   "after a rolled-back bracket with a private change it differs from the database's (observation O3).",
-    "lean_props": ["BtcwVerif.Props.C05"],
-    "engines": ["addrmgr-lock"],
+    "lean_props": ["BtcwVerif.Props.C05", "BtcwVerif.Props.C05w"],
+    "engines": ["addrmgr-lock", "wallet-restart"],
     "trusted_base": COMMON_TB + [
         "hand-written model BtcwVerif/Model/AddrLock.lean of waddrmgr/{manager,scoped_manager,address,sync,db}.go (tied by differential run)",
         "build-tagged hook waddrmgr.(*Manager).VerifBufferReport (reads unexported buffers; add-only)",
